@@ -147,12 +147,32 @@ def scenario(system, S, kind, ints, small, tol, A):
             raise HarnessError(f"{system} S={C8.names(S)}: no redundancy, kind {kind} is not applicable")
         ds, dl = deltas(tol, ints)
         vals[list(S).index(jstar), PERT_ROW] += ds if kind == "small" else dl
-        m = measures(system, S, vals, A)
-        if kind == "small" and not max(m.values()) <= tol / 2:
-            raise HarnessError(f"{system} S={C8.names(S)}: 'small' perturbation is not small under every reading: {m} tol={tol}")
-        if kind == "large" and not min(m["rss_joint"], m["rss_fit"], m["maxabs"]) >= 2 * tol:
-            raise HarnessError(f"{system} S={C8.names(S)}: 'large' perturbation is not large under every reading: {m} tol={tol}")
+        # the classification must hold under every reading, with the relations written as the reference writes them
+        # (coefficients +-1, 1/2) and, when the relations in force are EQUIVALENT to the reference's, also as the tree
+        # writes them.  Relations of the tree that are not equivalent (a defective file) never decide what the harness
+        # calls small or large: that would turn a defect of the tree into a harness error.
+        readings = [measures(system, S, vals, reference_rows(system))]
+        if equivalent_to_reference(system, A):
+            readings.append(measures(system, S, vals, A))
+        for m in readings:
+            if kind == "small" and not max(m.values()) <= tol / 2:
+                raise HarnessError(f"{system} S={C8.names(S)}: 'small' perturbation is not small under every reading: {m} tol={tol}")
+            if kind == "large" and not min(m["rss_joint"], m["rss_fit"], m["maxabs"]) >= 2 * tol:
+                raise HarnessError(f"{system} S={C8.names(S)}: 'large' perturbation is not large under every reading: {m} tol={tol}")
     return E, vals, jstar
+
+
+def reference_rows(system):
+    return relation_rows(L.parse_relations(L.user_relations_text(system), "reference"))
+
+
+def equivalent_to_reference(system, A):
+    """do the rows A define the same subspace as the Laue class? (numerical ranks of small exact-valued matrices)"""
+    T = true_relation_rows(system)
+    if A.shape[0] == 0 or T.shape[0] == 0:
+        return A.shape[0] == 0 and T.shape[0] == 0
+    r = numpy.linalg.matrix_rank
+    return r(A) == r(T) == r(numpy.vstack([A, T]))
 
 
 def make_table(S, vals, ints, case, order, extras):
@@ -360,7 +380,7 @@ def evaluate(c, small=True):
                 if not mv <= bound:
                     i = int(numpy.argmax(numpy.abs(x[j] - vals[t])))
                     viol.append(V(f"c09:supplied-moved:{c['kind']}" + ("" if suff else ":rank-deficient"),
-                                  f"{lab}: supplied {L.NAMES[j]} at volume {i} was {vals[t, i]!r}, came back {x[j, i]!r} (moved {mv:.3g} > {bound:.3g})"))
+                                  f"{lab}: supplied {L.NAMES[j]} at volume {i} was {float(vals[t, i])!r}, came back {float(x[j, i])!r} (moved {mv:.3g} > {bound:.3g})"))
             elif float(numpy.abs(vals[t]).max()) >= 2 * drop:
                 viol.append(V("c09:supplied-missing", f"{lab}: supplied {L.NAMES[j]} ({vals[t].tolist()}) is absent from the result {list(res.columns)}"))
         # relations of the class (absent = 0); only meaningful when nothing above ~drop_atol can have been dropped
